@@ -7,10 +7,10 @@
 set -u
 VERIF="$(cd "$(dirname "$0")" && pwd)"
 REPO="${VERIF_REPO:-/repo}"
-BUILD="$VERIF/.build"
+BUILD="${VERIF_BUILD:-$VERIF/.build}" # seeded-change trials use their own build directory
 export GOFLAGS=-mod=mod GOPROXY=off
 unset GOSUMDB GOTOOLCHAIN 2>/dev/null
-mkdir -p "$BUILD" "$VERIF/evidence" "$VERIF/replay"
+mkdir -p "$BUILD" "${VERIF_OUT:-$VERIF}/evidence" "${VERIF_OUT:-$VERIF}/replay"
 
 modfile() {
 	# generated module file so that the same harness can be pointed at a scratch copy
@@ -55,9 +55,9 @@ RACEARG=()
 if [ "$MODE" = --replay ]; then
 	if needs_race "$ID" thorough; then build_vcheck race; RACEARG=(-racebin "$BUILD/vcheck-race"); fi
 	if needs_tools "$ID"; then build_tools; fi
-	exec "$BUILD/vcheck" -prop "$ID" -seed "$SEED" -repo "$REPO" -verif "$VERIF" "${RACEARG[@]}" -replay "${3:?replay file}"
+	exec "$BUILD/vcheck" -prop "$ID" -seed "$SEED" -repo "$REPO" -verif "$VERIF" -build "$BUILD" "${RACEARG[@]}" -replay "${3:?replay file}"
 fi
 case "$MODE" in quick|thorough) ;; *) echo "bad tier $MODE"; exit 2 ;; esac
 if needs_race "$ID" "$MODE"; then build_vcheck race; RACEARG=(-racebin "$BUILD/vcheck-race"); fi
 if needs_tools "$ID"; then build_tools; fi
-exec "$BUILD/vcheck" -prop "$ID" -tier "$MODE" -seed "$SEED" -repo "$REPO" -verif "$VERIF" "${RACEARG[@]}" ${VERIF_N:+-n "$VERIF_N"}
+exec "$BUILD/vcheck" -prop "$ID" -tier "$MODE" -seed "$SEED" -repo "$REPO" -verif "$VERIF" -build "$BUILD" "${RACEARG[@]}" ${VERIF_N:+-n "$VERIF_N"}
